@@ -296,14 +296,34 @@ def elabMeta (c : Cls) : Cls := updateRefs (c.attrs.foldl processAttr { c with a
 off the shared `State` objects), the namespace is empty -/
 def startClass (base : Cls) : Cls := { trans := base.trans, err := base.err }
 
+/-- the events found on an inherited state's transitions are registered by id only
+(`Event(id=event.id, name=event.name)`, no transition list): nothing is expanded again -/
+def dropTl : EvRef → EvRef
+  | .real id _ => .real id none
+  | x => x
+
+/-- `cls.add_state(id, state, inherited=True)` (after the repair of D16c/D7b) -/
+def addStateInh (c : Cls) (s : SDecl) : Cls :=
+  let c1 := { c with states := c.states ++ [s] }
+  (uniqueEvents (outOf c1 s.name)).foldl (fun c e => addEvent c (dropTl e)) c1
+
 /-- `add_inherited` (runs after the body was evaluated): re-register the base's states (shared
-objects) and events -/
-def inherit (base : Cls) (c : Cls) : Cls :=
-  base.events.foldl (fun c e => addEvent c (.real e none)) (base.states.foldl addState c)
+objects) and events. `fixed = false` is the code before the repair of D16c/D7b: registering an
+inherited state re-ran `_on_event_defined` for the events on its transitions, so the base's
+`from_.any()` transitions were expanded again — into the `State` objects shared with the base. -/
+def inheritV (fixed : Bool) (base : Cls) (c : Cls) : Cls :=
+  base.events.foldl (fun c e => addEvent c (.real e none))
+    (base.states.foldl (if fixed then addStateInh else addState) c)
+
+def inherit (base : Cls) (c : Cls) : Cls := inheritV true base c
 
 /-- one `class X(Base): body` statement -/
 def elabClass (base : Cls) (p : List Stmt) : Cls :=
   elabMeta (inherit base (elabBody (startClass base) p))
+
+/-- the same before the repair of D16c/D7b -/
+def elabClassAsIs (base : Cls) (p : List Stmt) : Cls :=
+  elabMeta (inheritV false base (elabBody (startClass base) p))
 
 /-- a chain of classes, each inheriting from the previous one; the result is the last class -/
 def elabProg (prog : List (List Stmt)) : Cls := prog.foldl elabClass {}
